@@ -65,17 +65,29 @@ type C13Case struct {
 
 func c13Key(i int) []byte { return []byte(fmt.Sprintf("k%07d", i)) }
 
+// nanoClamp: timestamps are unsigned; times before 1970 do not exist as timestamps
+func nanoClamp(t time.Time) uint64 {
+	n := t.UnixNano()
+	if n < 0 {
+		return 0
+	}
+	return uint64(n)
+}
+
 func c13TS(kind int, base time.Time, r time.Duration) uint64 {
 	cut := base.Add(-r)
 	switch kind {
 	case kLiveOld, kMarkFar:
-		return uint64(cut.Add(-72 * time.Hour).UnixNano())
+		return nanoClamp(cut.Add(-72 * time.Hour))
 	case kLiveNew, kMarkNow:
 		return uint64(base.UnixNano())
 	case kMarkNear:
-		return uint64(cut.Add(-10 * time.Second).UnixNano())
+		return nanoClamp(cut.Add(-10 * time.Second))
 	case kMarkYoung:
-		return uint64(cut.Add(10 * time.Second).UnixNano())
+		if cut.UnixNano() < 0 {
+			return uint64(base.Add(-24 * time.Hour).UnixNano()) // retention reaches before 1970: any past time is young
+		}
+		return nanoClamp(cut.Add(10 * time.Second))
 	case kMarkFuture:
 		return uint64(base.Add(48 * time.Hour).UnixNano())
 	}
@@ -320,8 +332,8 @@ func checkC13(c C13Case, o *vcore.Obs) error {
 		return fmt.Errorf("harness: application write between slices failed: %v", v)
 	}
 
-	cutGone := uint64(tStart.Add(-r).UnixNano()) // markers older than this at the start of the pass must be gone
-	cutKeep := uint64(tEnd.Add(-r).UnixNano())   // markers at least this young must stay
+	cutGone := nanoClamp(tStart.Add(-r)) // markers older than this at the start of the pass must be gone
+	cutKeep := nanoClamp(tEnd.Add(-r))   // markers at least this young must stay
 	dump, err := lm.DumpEnv(env.Env)
 	if err != nil {
 		return err
@@ -397,13 +409,14 @@ func checkC13(c C13Case, o *vcore.Obs) error {
 	o.ClassIf(lastTouched, "slice-boundary-key-rewritten-or-deleted")
 	o.ClassIf(c.FreeWriter, "free-running-writer")
 	o.ClassIf(!c.Native, "non-native")
+	o.ClassIf(tStart.Add(-r).UnixNano() < 0, "retention-reaches-before-1970")
 	return nil
 }
 
 func genC13(t *rapid.T) C13Case {
 	var c C13Case
 	c.Native = rapid.IntRange(0, 3).Draw(t, "native") > 0
-	c.RetentionDays = rapid.SampledFrom([]float32{0.5, 1, 7, 370}).Draw(t, "retention")
+	c.RetentionDays = rapid.SampledFrom([]float32{0.5, 1, 7, 370, 370, 20000, 36500, 106751}).Draw(t, "retention")
 	c.LockNs = rapid.SampledFrom([]int64{1, 1, int64(time.Hour)}).Draw(t, "lock")
 	nd := rapid.IntRange(1, 3).Draw(t, "ndbi")
 	for i := 0; i < nd; i++ {
@@ -453,7 +466,7 @@ func genC13(t *rapid.T) C13Case {
 
 func TestC13Sweeper(t *testing.T) {
 	vcore.Run(t, vcore.Config{Property: "C13",
-		Rule: "rapid: 1-3 DBIs x 0-3500 entries from a generated kind pattern (live old/new/ts 0, markers days/10 s older than the cutoff, 10 s younger, now, future, ts 0), retention {0.5, 1, 7, 370} days, lock duration {1 ns => a slice every 1000 records, 1 h}, native and non-native (application DBI holding values that look like expired markers), application writes injected at the between-slices yield point aimed at the last scanned key (rewrite / delete / insert after / expired marker after / random touch), free-running writer in the thorough tier; " +
+		Rule: "rapid: 1-3 DBIs x 0-3500 entries from a generated kind pattern (live old/new/ts 0, markers days/10 s older than the cutoff, 10 s younger, now, future, ts 0), retention {0.5, 1, 7, 370, 20000, 36500, 106751} days (the last ones reach back before 1970), lock duration {1 ns => a slice every 1000 records, 1 h}, native and non-native (application DBI holding values that look like expired markers), application writes injected at the between-slices yield point aimed at the last scanned key (rewrite / delete / insert after / expired marker after / random touch), free-running writer in the thorough tier; " +
 			"non-trivial = >=1 expired marker, >=1 young marker and >=1 live entry in swept DBIs"},
 		genC13, checkC13)
 }
